@@ -205,6 +205,19 @@ func vsProxy(s *verifsim.Sim, p *vsPeer, self *verifnet.Host, honest, other peer
 		case bResetMid:
 			k := len(resp) / 2
 			_, _ = cs.Write(resp[:k])
+			// every second time the first half is on the wire long enough to be read before the reset
+			// arrives (a reset discards what is still buffered)
+			p.mu.Lock()
+			slow := p.used%2 == 1
+			p.mu.Unlock()
+			if slow {
+				time.Sleep(20 * time.Millisecond)
+				// ... and a further piece of the payload arrives once the status message has been consumed
+				if k2 := k + (len(resp)-k)/2; k2 > k {
+					_, _ = cs.Write(resp[k:k2])
+					time.Sleep(20 * time.Millisecond)
+				}
+			}
 			_ = cs.Reset()
 			return
 		case bTruncated:
@@ -358,14 +371,21 @@ func vsGetterWorld(s *verifsim.Sim) {
 		panic(err)
 	}
 	var g shwap.Getter = sg
-	wiring := s.Choose(3, "wiring")
+	wiring := s.Choose(4, "wiring")
+	if wiring == 3 && scenario == 2 {
+		wiring = 1 // "everyone says not found" is judged on the peers alone
+	}
 	switch wiring {
 	case 1:
 		g = getters.NewCascadeGetter([]shwap.Getter{sg})
 	case 2:
 		g = getters.NewCascadeGetter([]shwap.Getter{vsLocalMiss{}, sg})
+	case 3:
+		// the light node's cascade: shrex first, a second network getter behind it (here an honest one
+		// serving samples from the reference square; other requests it does not support)
+		g = getters.NewCascadeGetter([]shwap.Getter{sg, vsBackup{sq: sq}})
 	}
-	s.Cfg["wiring"] = []string{"shrex", "cascade[shrex]", "cascade[store-miss,shrex]"}[wiring]
+	s.Cfg["wiring"] = []string{"shrex", "cascade[shrex]", "cascade[store-miss,shrex]", "cascade[shrex,honest-backup]"}[wiring]
 	hdr := verifhdr.MakeHeader(height, time.Now(), sq.Roots)
 	deadline := []time.Duration{2 * time.Second, 20 * time.Second, 90 * time.Second, 4 * time.Minute}[s.Choose(4, "deadline")]
 	if scenario == 1 || scenario == 3 {
@@ -555,6 +575,35 @@ func vsGetterWorld(s *verifsim.Sim) {
 		}
 	}
 	_ = sg.Stop(context.Background())
+}
+
+// vsBackup is an honest second getter of a cascade: samples come from the reference square through the
+// real accessor; everything else is not supported (the cascade moves on).
+type vsBackup struct{ sq *verifsq.Square }
+
+func (b vsBackup) GetSamples(ctx context.Context, _ *header.ExtendedHeader, idxs []shwap.SampleCoords) ([]shwap.Sample, error) {
+	acc := &eds.Rsmt2D{ExtendedDataSquare: b.sq.EDS}
+	out := make([]shwap.Sample, len(idxs))
+	for i, ix := range idxs {
+		smp, err := acc.Sample(ctx, ix)
+		if err != nil {
+			return out, err
+		}
+		out[i] = smp
+	}
+	return out, nil
+}
+func (vsBackup) GetEDS(context.Context, *header.ExtendedHeader) (*rsmt2d.ExtendedDataSquare, error) {
+	return nil, shwap.ErrOperationNotSupported
+}
+func (vsBackup) GetRow(context.Context, *header.ExtendedHeader, int) (shwap.Row, error) {
+	return shwap.Row{}, shwap.ErrOperationNotSupported
+}
+func (vsBackup) GetNamespaceData(context.Context, *header.ExtendedHeader, libshare.Namespace) (shwap.NamespaceData, error) {
+	return nil, shwap.ErrOperationNotSupported
+}
+func (vsBackup) GetRangeNamespaceData(context.Context, *header.ExtendedHeader, int, int) (shwap.RangeNamespaceData, error) {
+	return shwap.RangeNamespaceData{}, shwap.ErrOperationNotSupported
 }
 
 type vsLocalMiss struct{}
